@@ -21,6 +21,7 @@ type xClient struct {
 	status    int
 	body      string
 	bodyErrAt int // the body of this call's response breaks off with a read error, -1 never
+	declared  int64 // the Content-Length the target declares (it need not be true)
 }
 
 // xBrokenBody delivers its data, then fails (connection reset while the body is being read).
@@ -46,9 +47,9 @@ func (c *xClient) Do(req *http.Request) (*http.Response, error) {
 		return nil, errors.New("connection reset")
 	}
 	if i == c.bodyErrAt {
-		return &http.Response{StatusCode: c.status, Header: http.Header{"X-Tok": []string{"v"}}, Body: &xBrokenBody{data: c.body}, Request: req, ProtoMajor: 1, ProtoMinor: 1}, nil
+		return &http.Response{StatusCode: c.status, Header: http.Header{"X-Tok": []string{"v"}}, Body: &xBrokenBody{data: c.body}, Request: req, ProtoMajor: 1, ProtoMinor: 1, ContentLength: c.declared}, nil
 	}
-	return &http.Response{StatusCode: c.status, Header: http.Header{"X-Tok": []string{"v"}}, Body: io.NopCloser(strings.NewReader(c.body)), Request: req, ProtoMajor: 1, ProtoMinor: 1}, nil
+	return &http.Response{StatusCode: c.status, Header: http.Header{"X-Tok": []string{"v"}}, Body: io.NopCloser(strings.NewReader(c.body)), Request: req, ProtoMajor: 1, ProtoMinor: 1, ContentLength: c.declared}, nil
 }
 func (c *xClient) CloseIdleConnections() {}
 
@@ -134,6 +135,8 @@ func HarnessC15ScenarioShot() {
 	names := []string{"s0", "s1", "s2", "s3", "s4"}
 	cl := &xClient{failAt: -1, bodyErrAt: -1, status: int(vNondetInt("status", 200, 599))}
 	cl.body = vNondetString("body", int(vConcretize(vNondetInt("bodylen", 0, 2)))) // the target may answer with an empty body
+	// ... and declare any length: unknown, none, the true one or so, an absurd one
+	cl.declared = []int64{-1, 0, 2, 1 << 62}[vConcretize(vNondetInt("declaredLength", 0, 3))]
 	tp := &xTemplater{seen: map[string]map[string]any{}}
 	var reqs []Request
 	for i := 0; i < nSteps; i++ {
